@@ -161,11 +161,12 @@ def _compile_path_pattern(pattern, mode=S_REWRITE):
     full_pattern += sep.join(processed)
     if mode != S_STRICT:
         full_pattern += '/*'
-    elif re.match(full_pattern + '$', ''):
+    elif re.match(full_pattern + r'\Z', ''):
         # every element is an absent-able binding: the root path is
         # the empty assignment (a request path is never '')
         full_pattern = '^(?:%s|/)' % full_pattern[1:]
-    regex = re.compile(full_pattern + '$')
+    # \Z, not $: a path ending in a newline is not the path without it
+    regex = re.compile(full_pattern + r'\Z')
     return regex, var_converter_map
 
 
